@@ -3,7 +3,9 @@ records, after every read, the observable state of JunosXMLParser.parse (which p
 _head, the session buffer, messages dispatched so far, what was given to expat) — by subclassing the session and
 rebinding the module-level name make_parser of the Junos parser module (no hooks in the source).  Also builds the
 oracle side of the extracted driver model (coq/Model/JunosSax.v): per reply-to-be of the stream, the SAX events each
-octet completes (real expat fed octet by octet, no ncclient code involved) and what dispatching it does."""
+octet completes (real expat fed octet by octet, no ncclient code involved) and what dispatching it does.
+run_sessions_obs: several such sessions in ONE process, each with the real Session.run in a worker of its own, the
+reads handed out one at a time in a given order (exactly one worker runs at any time: deterministic)."""
 import io
 import xml.etree.ElementTree as ET
 from harness import saxpath as H
@@ -12,61 +14,82 @@ DELIM = H.DELIM
 WS = b' \t\n\r\x0b\x0c'
 
 # ------------------------------------------------------------------ implementation side
-def run_stream_obs(segments, filters, use_filter=True, forms=None, base=10):
-    """As saxpath.run_stream, plus the observations.  -> (results per request, obs)
-    obs = dict(reads=[state after each read...], outs=[(via_sax, raw message)...], fed=[bytes per reply, oldest first],
-               raised=[bool per reply: a feed() raised], died=exception class name or None)
-    state = (kind 0 SAX / 1 DOM, _held, _head, buffer (DOM: without leading white space), number of messages dispatched,
-             length of what the current reply's parser was given)"""
-    from xml.sax import expatreader
-    from ncclient.transport.third_party.junos import parser as P
-    from ncclient.transport.parser import DefaultXMLParser
-    log = dict(reads=[], outs=[], fed=[b''], raised=[False], died=None)
+_cur = {'log': None}          # the log of the session that is being created / whose turn it is (one runs at a time)
 
+def _new_log():
+    return dict(reads=[], outs=[], fed=[b''], raised=[False], died=None)
+
+def _rec_parser_class():
+    from xml.sax import expatreader
     class RecParser(expatreader.ExpatParser):
+        """records what the XML parser of a reply is given, in the log of the session that created it"""
+        def __init__(self, *a, **k):
+            expatreader.ExpatParser.__init__(self, *a, **k)
+            self._log = _cur['log']
         def feed(self, data, isFinal=False):
+            log = self._log
             log['fed'][-1] += bytes(data)
             try:
                 return expatreader.ExpatParser.feed(self, data, isFinal)
             except BaseException:
                 log['raised'][-1] = True
                 raise
+    return RecParser
+
+def _obs_session(log, use_filter, base, turn=None):
+    """A saxpath session whose class records into `log` (state after every read, messages dispatched).  turn: None, or
+    a _Turn: the session's worker then waits in _transport_read until the scheduler gives it the next read."""
+    from ncclient.transport.third_party.junos import parser as P
+    _cur['log'] = log
+    s, dh = H.make_session(use_filter, base)
+    cls0 = s.__class__
+
+    def snapshot(self):
+        p = self.parser
+        buf = self._buffer.getvalue()
+        if base == 11:
+            # chunked framing: the Junos parser stays; the framing side is the buffer and the chunks of the message in progress
+            st = (5 if isinstance(p, P.JunosXMLParser) else 6, getattr(p, '_held', None), getattr(p, '_head', None), buf,
+                  b''.join(self._message_list), len(log['outs']))
+        elif isinstance(p, P.JunosXMLParser):
+            st = (0, p._held, p._head, buf, len(log['outs']), len(log['fed'][-1]), log['raised'][-1])
+        else:
+            st = (1, b'', b'', buf.lstrip(WS), len(log['outs']), len(log['fed'][-1]), log['raised'][-1])
+        log['reads'].append(st)
+
+    class Obs(cls0):
+        _first = True
+        def _transport_read(self):
+            if not self._first: snapshot(self)
+            self._first = False
+            if turn is not None: turn.wait_turn()
+            return cls0._transport_read(self)
+        def _dispatch_message(self, raw):
+            # written by the SAX handler?  base:1.0: the Junos parser is (still) the session's parser; base:1.1: the
+            # XML parser of this message was fed and did not raise
+            via = isinstance(self.parser, P.JunosXMLParser) if base != 11 else (bool(log['fed'][-1]) and not log['raised'][-1])
+            log['outs'].append((via, raw))
+            log['fed'].append(b''); log['raised'].append(False)
+            return cls0._dispatch_message(self, raw)
+        def _dispatch_error(self, err):
+            if log['died'] is None and not self._closing.is_set(): log['died'] = type(err).__name__
+            return cls0._dispatch_error(self, err)
+    s.__class__ = Obs
+    return s, dh
+
+def run_stream_obs(segments, filters, use_filter=True, forms=None, base=10, id0=0):
+    """As saxpath.run_stream, plus the observations.  -> (results per request, obs)
+    obs = dict(reads=[state after each read...], outs=[(via_sax, raw message)...], fed=[bytes per reply, oldest first],
+               raised=[bool per reply: a feed() raised], died=exception class name or None)
+    state = (kind 0 SAX / 1 DOM, _held, _head, buffer (DOM: without leading white space), number of messages dispatched,
+             length of what the current reply's parser was given)"""
+    from ncclient.transport.third_party.junos import parser as P
+    log = _new_log()
     orig = P.make_parser
-    P.make_parser = lambda: RecParser()
+    P.make_parser = _rec_parser_class()
     try:
-        s, dh = H.make_session(use_filter, base)
-        cls0 = s.__class__
-
-        def snapshot(self):
-            p = self.parser
-            buf = self._buffer.getvalue()
-            if base == 11:
-                # chunked framing: the Junos parser stays; the framing side is the buffer and the chunks of the message in progress
-                st = (5 if isinstance(p, P.JunosXMLParser) else 6, getattr(p, '_held', None), getattr(p, '_head', None), buf,
-                      b''.join(self._message_list), len(log['outs']))
-            elif isinstance(p, P.JunosXMLParser):
-                st = (0, p._held, p._head, buf, len(log['outs']), len(log['fed'][-1]), log['raised'][-1])
-            else:
-                st = (1, b'', b'', buf.lstrip(WS), len(log['outs']), len(log['fed'][-1]), log['raised'][-1])
-            log['reads'].append(st)
-
-        class Obs(cls0):
-            _first = True
-            def _transport_read(self):
-                if not self._first: snapshot(self)
-                self._first = False
-                return cls0._transport_read(self)
-            def _dispatch_message(self, raw):
-                # written by the SAX handler?  base:1.0: the Junos parser is (still) the session's parser; base:1.1: the
-                # XML parser of this message was fed and did not raise
-                via = isinstance(self.parser, P.JunosXMLParser) if base != 11 else (bool(log['fed'][-1]) and not log['raised'][-1])
-                log['outs'].append((via, raw))
-                log['fed'].append(b''); log['raised'].append(False)
-                return cls0._dispatch_message(self, raw)
-            def _dispatch_error(self, err):
-                if log['died'] is None and not self._closing.is_set(): log['died'] = type(err).__name__
-                return cls0._dispatch_error(self, err)
-        s.__class__ = Obs
+        s, dh = _obs_session(log, use_filter, base)
+        if id0: H._install(id0 + 1)
         objs = H.issue_requests(s, dh, filters, forms)
         s.segments = list(segments)
         s.run()
@@ -74,6 +97,68 @@ def run_stream_obs(segments, filters, use_filter=True, forms=None, base=10):
         P.make_parser = orig
     res = H.collect_results(objs, dh)
     return res, log
+
+# ------------------------------------------------------------------ several sessions in one process, reads interleaved
+class _Turn:
+    """Hand-over between the scheduler and one session's worker: the worker runs the real Session.run; in
+    _transport_read it reports 'back at the read' and waits for its next turn.  Exactly one thread runs at a time, so
+    the whole run is deterministic: the scheduler decides which session's parser gets the next read."""
+    def __init__(self):
+        import threading
+        self.go = threading.Semaphore(0); self.idle = threading.Semaphore(0); self.done = False
+    def wait_turn(self):
+        self.idle.release()
+        if not self.go.acquire(timeout=30): raise RuntimeError('scheduler gone')
+    def give(self, log):
+        """let the worker take its next read and process it (returns when it is back at the read, or has ended)"""
+        if self.done: return
+        _cur['log'] = log
+        self.go.release()
+        if not self.idle.acquire(timeout=30): raise RuntimeError('session worker does not come back')
+
+def run_sessions_obs(specs, order, use_filter=True):
+    """Several Junos-profile sessions in ONE process (what an application polling several devices has), their reads
+    interleaved as `order` says: order = list of session indices, each entry gives that session's worker its next
+    read segment (entries for a session that has none left are skipped; segments left over when the order is used up
+    are handed out session by session).  specs[k] = dict(segments, filters, forms, base, id0): as run_stream_obs; all
+    sessions are created first, then all requests issued (filter objects reused ACROSS sessions: equal filters are
+    the same str/bytes object, form 'shared' the same lxml element), then the reads.  End of stream for all at the end.
+    -> [(results per request, obs) per session]"""
+    import threading
+    from ncclient.transport.third_party.junos import parser as P
+    orig = P.make_parser
+    P.make_parser = _rec_parser_class()
+    logs, turns, sess, objs, threads = [], [], [], [], []
+    try:
+        for sp in specs:
+            log, turn = _new_log(), _Turn()
+            s, dh = _obs_session(log, use_filter, sp.get('base', 10), turn)
+            logs.append(log); turns.append(turn); sess.append((s, dh))
+        shared = {}
+        for (s, dh), sp, log in zip(sess, specs, logs):
+            _cur['log'] = log
+            H._install(sp.get('id0', 0) + 1)
+            objs.append(H.issue_requests(s, dh, sp['filters'], sp.get('forms'), shared))
+            s.segments = list(sp['segments'])
+        for (s, dh), turn, log in zip(sess, turns, logs):
+            def body(s=s, turn=turn):
+                try: s.run()
+                finally:
+                    turn.done = True; turn.idle.release()
+            t = threading.Thread(target=body, daemon=True); threads.append(t)
+            _cur['log'] = log
+            t.start()
+            if not turn.idle.acquire(timeout=30): raise RuntimeError('session worker does not start')
+        for k in order:
+            if sess[k][0].segments: turns[k].give(logs[k])
+        for k in range(len(specs)):
+            while sess[k][0].segments and not turns[k].done: turns[k].give(logs[k])
+        for k in range(len(specs)):
+            turns[k].give(logs[k])                     # end of stream
+            threads[k].join(30)
+    finally:
+        P.make_parser = orig
+    return [(H.collect_results(o, dh), log) for o, (s, dh), log in zip(objs, sess, logs)]
 
 # ------------------------------------------------------------------ oracle side of the model
 def split_pieces(stream):
